@@ -337,7 +337,27 @@ def derived_properties(tier):
     return out
 
 
-CONTRACTS = [derived_properties]
+def results_are_independent(tier):
+    """answers of Grid.neighbours / cell2coord / cell2rowcol / coord2cell are fresh arrays: a later call does not change an earlier answer
+    (real kernels; concrete)"""
+    import numpy as np
+    from hydrodiy.gis import grid as G
+    out = []
+    for (nr, nc) in ((3, 3), (2, 5), (4, 1)):
+        g = G.Grid('g', nc, nr, cellsize=0.5, xllcorner=-1.0, yllcorner=2.0)
+        n = nr * nc
+        for name, f, a1, a2 in (('neighbours', g.neighbours, 0, n - 1), ('cell2coord', g.cell2coord, [0, 1], [n - 1, 0]),
+                                ('cell2rowcol', g.cell2rowcol, [0, 1], [n - 1, 0]), ('coord2cell', g.coord2cell, [[-0.9, 2.1]], [[-0.9 + 0.5 * (nc - 1), 2.1 + 0.5 * (nr - 1)]])):
+            r1 = f(a1)
+            keep = np.array(r1, copy=True)
+            r2 = f(a2)
+            again = f(a1)
+            out.append(('earlier-answer-unchanged-by-a-later-call', bool(np.array_equal(r1, keep, equal_nan=True)) and not np.shares_memory(r1, r2)
+                        and bool(np.array_equal(again, keep, equal_nan=True)), dict(function=name, nrows=nr, ncols=nc)))
+    return out
+
+
+CONTRACTS = [derived_properties, results_are_independent]
 
 
 def contracts_part(tier, seed, workdir):
